@@ -64,7 +64,35 @@ def populateH (j : Json) : R Json := do
   let degs ← fList getStr j "degrees"
   return jOpt jPer (populate per node degs)
 
+
+def getPType (s : String) : R PType :=
+  match s with
+  | "express" => pure .express
+  | "add" => pure .add
+  | "drop" => pure .drop
+  | _ => throw s!"bad path type {s}"
+
+def getBand (j : Json) : R (Band Float) := do
+  match ← getArr j with
+  | [lo, hi, v] => return { lo := ← getOpt getF lo, hi := ← getF hi, value := ← getOpt getF v }
+  | _ => throw "band = [lo|null, hi, value|null]"
+
+def getProfile (j : Json) : R (Profile Float) := do
+  return { id := ← fNat j "id", ptype := ← getPType (← fStr j "ptype"), bands := ← fList getBand j "bands" }
+
+/-- profile selection for one internal connection + per-carrier max loss -/
+def profileH (j : Json) : R Json := do
+  let ps ← fList getProfile j "profiles"
+  let user ← fOpt getNat j "user"
+  let t ← getPType (← fStr j "ptype")
+  let freqs ← fList getF j "freqs"
+  match selectProfile ps user t with
+  | .error e => return jObj [("error", jStr e)]
+  | .ok sel =>
+    return jObj [("id", jOpt jNat (sel.map (·.id))),
+                 ("maxloss", jList (jOpt jF) (freqs.map (maxlossOf sel)))]
+
 def handlers : List (String × Handler) :=
-  [("c06.propagate", propagate), ("c06.accept", accept), ("c06.merge", merge), ("c06.eqpt", eqpt), ("c06.populate", populateH)]
+  [("c06.propagate", propagate), ("c06.accept", accept), ("c06.merge", merge), ("c06.eqpt", eqpt), ("c06.populate", populateH), ("c06.profile", profileH)]
 
 end Gnpy.Drv.C06
